@@ -189,16 +189,16 @@ def oracle_apply(it):
 
 
 # ------------------------------------------------------------------------------ (d) flagged entries feed their neighbours
-def make_reservoir_case(rng, tier):
+def make_reservoir_case(rng, tier, leaky=False):
     """a stochastic run where flagged entries matter as sources: a whole cell (every species) or a whole species is flagged and
     well stocked, the rest starts almost empty - what the free entries gain comes out of the flagged ones"""
     while True:
         c = c07.make_case(rng, tier)
         sp = c["desc"]["space"]
         # mostly systems in which a reservoir has somewhere to leak to: two cells or more, connected
-        if rng.random() < 0.25 or (sysgen.ncells(c["desc"]) >= 2 and (sp["type"] == "grid" or sp["edges"])):
+        if (not leaky and rng.random() < 0.25) or (sysgen.ncells(c["desc"]) >= 2 and (sp["type"] == "grid" or sp["edges"])):
             break
-    if rng.random() < 0.6:
+    if leaky or rng.random() < 0.6:
         # diffusion alone sets the pace: every species moves, the time step is tuned to the hops (with reactions around, the step is
         # tuned to the fastest reaction and a reservoir may not lose a single molecule in the whole run)
         c["desc"]["reactions"] = []
